@@ -68,6 +68,15 @@ func (rl *Shell) Readline() (string, error) {
 	resize := display.WatchResize(rl.Display)
 	defer close(resize)
 
+	// If a command panics, the application might recover from it: leave the
+	// cursor below the input line, like when returning, before unwinding.
+	defer func() {
+		if err := recover(); err != nil {
+			rl.Display.AcceptLine()
+			panic(err)
+		}
+	}()
+
 	for {
 		// Whether or not the command is resolved, let the macro
 		// engine record the keys if currently recording a macro.
